@@ -87,6 +87,10 @@ def make_case(index, rng, tier):
                 h2[0][1] = inject(rng, "2", cls)
         prog["second_sr"] = {"status": s2, "headers": h2, "exc_info": rng.randrange(3) != 0,
                              "when": rng.choice(["before_write", "after_write"])}
+    if prog["kind"] != "write" and rng.randrange(4) == 0:
+        prog["catch_refusal"] = True          # the refusal of the first call is caught and the body returned all the same
+    if prog.get("second_sr") and rng.randrange(3) == 0:
+        prog["second_sr"]["swallow"] = True   # ... likewise for what a later call raises
     return {"prog": prog, "family": rng.choice(conn.FAMILIES), "version": rng.choice(["1.1", "1.1", "1.0"]),
             "method": rng.choice(["GET", "GET", "HEAD", "POST"]), "field": field, "cls": cls}
 
@@ -141,7 +145,21 @@ def run(case, choices):
     resps, probs, rest = resp_ref.parse(wire, [{"method": case["method"]}, {"method": "GET"}])
     finals = [r for r in resps if not r.get("interim")]
     apps = [r for r in finals if r.get("code") is not None and not resp_ref.is_error_page(r)]
-    if first_bad:
+    lenient = bool(state.sr_errors) and (prog.get("catch_refusal") or (sec and sec.get("swallow")))
+    if lenient:
+        # the application caught a refusal and went on: what it then gets is its own affair (gunicorn keeps whatever the refused call
+        # had already replaced), but nothing of the text that was refused may be on the wire, and no head line may carry a control character
+        res.probes["refusal_swallowed"] += 1
+        for r in finals:
+            if r.get("start") is None:
+                continue
+            head = wire[r["start"]:max(r["start"], wire.find(b"\r\n\r\n", r["start"]))]
+            for ln in head.split(b"\r\n"):
+                if _bad(ln.decode("latin-1")) or b"X-Injected" in ln:
+                    res.violate("C09:swallowed-refusal:%s" % cls, "after a refused start_response call that the application caught, the head "
+                                "on the wire carries refused text: %s; %s" % (bsafe(ln, 80), ctx()))
+                    break
+    elif first_bad:
         res.probes["refusal_expected:" + first_bad[0]] += 1
         # nothing of the refused response may be on the wire: only (at most) one server-generated error page
         if apps or any(r.get("code") is None and not r.get("partial_head") for r in finals) or \
